@@ -359,19 +359,24 @@ PROPS = {
     },
     "C13": {
         "gen": [],
-        "thm_module": "NutsModel.Thm.CtlTrace",
+        "thm_module": "NutsModel.Thm.C13Init",
         "namespace": "NutsModel.Ctl",
         "theorems": ["no_spurious_error", "error_has_cause", "err_step_failed", "draw_failure_fails", "record_failure_fails",
-                     "init_failure_fails", "failure_is_reported", "error_sticky", "sampler_reports_error"],
+                     "init_failure_fails", "failure_is_reported", "error_sticky", "sampler_reports_error",
+                     "initLoop_started_iff", "initLoop_fatal_iff", "initLoop_allFailed_iff", "initLoop_noAttempt_iff", "init_allFailed_iff",
+                     "init_fatal_iff", "init_started_iff", "rejected_points_do_not_end_the_chain", "fatal_after_rejected_points", "init_attempted"],
         "harness": "C13",
         "level": "proof",
         "rule": ('the REAL parallel Sampler (rayon pool, 1..16 cores, 1..8 chains, HashMap and Arrow traces alternating, Diag NUTS / LowRank NUTS / Diag MCLMC presets in rotation) run under seeded schedule perturbation (hook arm_schedule: random sleeps/yields at every chain-loop and controller point) with a seeded script of pause / resume / progress / flush / inspect / wait_timeout / abort calls, a watchdog for hangs and catch_unwind for panics. ' +
                  "C13 mode: one or several chains fail at a seeded draw (initialisation, warmup, sampling, last draw) by: unrecoverable density "
                  "error, storage failure in record_sample, model construction failure, all initialisation points failing; plus recoverable-only "
                  "errors. Direct oracle: wait_timeout/abort returns Err (never Ok, never a panic of the caller, never a hang) iff some chain hit "
-                 "an unrecoverable failure; recoverable errors never terminate a chain. "
+                 "an unrecoverable failure; recoverable errors never terminate a chain (incl. rejected first initial points followed by a good one, "
+                 "in one or all chains). The initialisation outcome of every such run (n rejected points then accepted / unrecoverable / all 500 "
+                 "rejected -> started / error kind) is replayed by the retry-loop model Model/InitRetry.lean (driver record `init`). "
                  "distinct_nontrivial = runs in which a chain task actually hit its unrecoverable failure."),
-        "trusted": ['C10-C13: the chain task and controller actions are a hand-written model (Model/Controller.lean): one loop iteration is one atomic step (justified: everything before the record part is chain-local and the trace mutex is held across record+progress); channels are FIFO lists; rayon scheduling, mpsc and Mutex internals, OS threads and timeouts are NOT modelled -- they are exercised by the real-sampler runs under seeded schedule perturbation, which sample interleavings rather than enumerate them', "C10-C13: tie = every chain task's event log (hook chain_event: task start, message seen at each loop top, blocking receive, draw, record, slot-gone, end) is replayed through the model's chainStep by the Lean driver and must be a run of the model"],
+        "trusted": ['C10-C13: the chain task and controller actions are a hand-written model (Model/Controller.lean): one loop iteration is one atomic step (justified: everything before the record part is chain-local and the trace mutex is held across record+progress); channels are FIFO lists; rayon scheduling, mpsc and Mutex internals, OS threads and timeouts are NOT modelled -- they are exercised by the real-sampler runs under seeded schedule perturbation, which sample interleavings rather than enumerate them', "C10-C13: tie = every chain task's event log (hook chain_event: task start, message seen at each loop top, blocking receive, draw, record, slot-gone, end) is replayed through the model's chainStep by the Lean driver and must be a run of the model",
+            "C13: the initialisation retry loop (500 attempts; rejected point -> next attempt, unrecoverable error -> Err, success clears the remembered error) is a hand model (Model/InitRetry.lean) with each attempt abstracted to accepted / rejected / unrecoverable; proved for every outcome stream and loop bound: the chain starts iff the first non-rejected outcome among the attempts is an accepted point, ends with the unrecoverable error iff it is an unrecoverable one, and reports 'all failed' iff every attempt was rejected; tied by the `init` records of real sampler runs"],
     },
     "C05": {
         "gen": [],
